@@ -57,8 +57,19 @@ def _as_exported(name: str) -> str:
     return "".join(c if (c.isalnum() or c in "_-.# ") else " " for c in name).rstrip(" .")
 
 
+def _as_exported2(name: str) -> str:
+    """Same, with every run of unsafe characters turned into ONE blank."""
+    import re
+    return re.sub(r"[^\w\-.# ]+", " ", name).rstrip(" .")
+
+
 def _split_any(name: str):
-    return lr_split(name) or lr_split(name.rstrip(" .")) or lr_split(_as_exported(name))
+    return lr_split(name) or lr_split(name.rstrip(" .")) or lr_split(_as_exported2(name)) or lr_split(_as_exported(name))
+
+
+def _norm_sep(sep: str) -> str:
+    import re
+    return re.sub(r"\s+", " ", sep)
 
 
 def owner_of(channel: bytes, refs: List[namesim.SampleRef]) -> Optional[namesim.SampleRef]:
@@ -116,7 +127,7 @@ def run(sc: dict) -> RunResult:
                     has_partner = False
                     for x in rs:
                         xs = _split_any(x.name)
-                        if x is not r and xs and _san(xs[0]) == _san(sp[0]) and xs[1] == sp[1] and xs[2] == other_side:
+                        if x is not r and xs and _san(xs[0]) == _san(sp[0]) and _norm_sep(xs[1]) == _norm_sep(sp[1]) and xs[2] == other_side:
                             has_partner = True
                     if has_partner or (_san(sp[0] + sp[1]) == _san(stem + sep)):
                         # another complete pair of the same stem (its merged name collides with ours), or the same
